@@ -6,7 +6,11 @@ each listed fn is cut out of the real source by brace matching. The only edits m
   * the visibility qualifiers `pub` / `pub(crate)` are dropped;
   * the return type `-> T` of a fn with a contract is rewritten `-> (r: T)` (Verus' named result), and
     the contract text (requires/ensures) is spliced between the signature and the body.
-Bodies are byte-for-byte those of the repository. A target whose anchor is not found is a lost anchor.
+  * a by-value `mut self` receiver (unsupported by this Verus) is desugared the way rustc itself reads it:
+    the receiver becomes `self`, the body is prefixed with `let mut self_ = self;` and every `self` token
+    in the body is renamed `self_` (desugar_mut_self; applied only when the signature says `mut self`).
+Bodies are otherwise byte-for-byte those of the repository. A target whose anchor is not found is a lost
+anchor.
 """
 import re
 
@@ -80,8 +84,18 @@ def cut_fn(impl_text, name):
     return impl_text[m.start():b], impl_text[b:e], impl_text.count("\n", 0, m.start())
 
 
+def desugar_mut_self(sig, body):
+    """`fn f(mut self, ..) {B}` -> `fn f(self, ..) { let mut self_ = self; B[self := self_] }`"""
+    if not re.search(r"\(\s*mut\s+self\b", sig):
+        return sig, body
+    sig = re.sub(r"\(\s*mut\s+self\b", "(self", sig, count=1)
+    inner = re.sub(r"\bself\b", "self_", body[1:])
+    return sig, "{\n        let mut self_ = self;" + inner
+
+
 def with_contract(sig, body, contract):
     sig = strip_attrs_docs_vis(sig).rstrip()
+    sig, body = desugar_mut_self(sig, body)
     if contract:
         m = re.search(r"->\s*(.+?)\s*(where\b.*)?$", sig, re.S)
         if m:
